@@ -167,6 +167,9 @@ func c10ModelR(run *ev.Run, kind string, abs, idle int, ids []string, replicas b
 		}
 	}
 	evs = append(evs, seqx.Event{Kind: "Advance", Adv: 1})
+	// the clean-up routine of the store interface: enforcement must not depend on it (histories without it are all
+	// there), and running it is not a use of any session
+	evs = append(evs, seqx.Event{Kind: "Sweep"})
 	viol := func(s *c10Sys, sig, msg string, hist []seqx.Event, e seqx.Event) {
 		run.Violation(fmt.Sprintf("C10 %s store=%s", sig, kind), fmt.Sprintf("(abs=%ds idle=%ds) %s", abs, idle, msg),
 			c10Replay{Kind: kind, Abs: abs, Idle: idle, History: append(append([]seqx.Event{}, hist...), e)})
@@ -186,6 +189,12 @@ func c10ModelR(run *ev.Run, kind string, abs, idle int, ids []string, replicas b
 				if vtime.Live() > 0 {
 					vtime.FireAll(s.now)
 					vsched.Quiesce()
+				}
+				return
+			}
+			if e.Kind == "Sweep" {
+				if err := s.store.RemoveAllExpired(context.Background()); err != nil && live {
+					viol(s, "sweep-error", fmt.Sprintf("RemoveAllExpired returned %v", err), hist, e)
 				}
 				return
 			}
@@ -355,7 +364,7 @@ func c10ModelR(run *ev.Run, kind string, abs, idle int, ids []string, replicas b
 func c10Pairs() [][2]int { return [][2]int{{0, 0}, {0, 3}, {3, 0}, {3, 5}, {3, 3}, {5, 3}} }
 
 func c10Run(run *ev.Run) {
-	run.Rule = "store level, virtual clock: for every (absolute, idle) pair in {(0,0),(0,3),(3,0),(3,5),(3,3),(5,3)} s and both stores (built with the constructors PreRun uses), BFS over all histories of {write tokens, write login state, read tokens, read login state, clear login state, advance 1 s} on one id (two in thorough) with NO manual RemoveAllExpired; oracle: a relation tracked as a set of candidate abstract sessions (created c, last use u): a read must return nothing past c+A or u+I and must return the data up to one second before both limits; class = (store, read kind, outcome, pair)"
+	run.Rule = "store level, virtual clock: for every (absolute, idle) pair in {(0,0),(0,3),(3,0),(3,5),(3,3),(5,3)} s and both stores (built with the constructors PreRun uses), BFS over all histories of {write tokens, write login state, read tokens, read login state, clear login state, advance 1 s} on one id (two in thorough), with and without calls of RemoveAllExpired in between (which must neither be needed nor count as a use); oracle: a relation tracked as a set of candidate abstract sessions (created c, last use u): a read must return nothing past c+A or u+I and must return the data up to one second before both limits; class = (store, read kind, outcome, pair)"
 	run.Assumptions = []string{
 		"one second of granularity: at exactly c+A / u+I either answer is accepted",
 		"whether a read that finds the session but not the requested part, or a clear, counts as 'use' is left open (both candidates are kept)",
